@@ -1908,6 +1908,11 @@ class Exec:
                         for s2, ok in self.fork(st, inr):
                             res.append((s2, (self.new_buf(s2, z) if name == 'bytearray' else VBytes(z)) if ok else Raise('ValueError', getattr(n, 'lineno', None))))
                         return res
+                elif isinstance(A[0], VStr) and (len(A) > 1 or 'encoding' in kws):
+                    # bytes(text, encoding): what text.encode(encoding) yields
+                    enc = A[1] if len(A) > 1 else kws['encoding']
+                    outs = self.call_builtin(VBuiltin('encode', bound=A[0]), [enc], {}, st, ctx, n, env)
+                    return [(s2, v if isinstance(v, Raise) else (self.new_buf(s2, self.seq(v, s2)) if name == 'bytearray' else v)) for s2, v in outs]
                 elif isinstance(A[0], VInt):
                     c = A[0].conc()
                     if c is None:
